@@ -123,29 +123,30 @@ def summarize(run):
 def validate(ctx, runs, par, label):
     """TraceSpec + RecvSpec over all runs; records violations.  Returns number of bad runs."""
     shards = shard_runs(runs, par)
+    shards2 = shard_runs(runs, max(1, par // 4))     # the receiver oracle is cheap: few, larger shards
     bad = 0
 
     def l1(i):
         return i, tlc_trace(ctx, "%s-l1-%d" % (label, i), shards[i], "TraceSpec", "Report")
 
     def l2(i):
-        return i, tlc_trace(ctx, "%s-l2-%d" % (label, i), shards[i], "RecvSpec", "RecvReport")
+        return i, tlc_trace(ctx, "%s-l2-%d" % (label, i), shards2[i], "RecvSpec", "RecvReport")
 
     with cf.ThreadPoolExecutor(max_workers=par) as ex:
         f1 = [ex.submit(l1, i) for i in range(len(shards))]
-        f2 = [ex.submit(l2, i) for i in range(len(shards))]
+        f2 = [ex.submit(l2, i) for i in range(len(shards2))]
         r1 = [f.result() for f in f1]
         r2 = [f.result() for f in f2]
     # ---- receiver oracle (hook-free)
     for i, (out, res) in r2:
-        flat = [ln for r in shards[i] for ln in r]
+        flat = [ln for r in shards2[i] for ln in r]
         if out is None:
             raise vf.Infra("receiver oracle produced no result:\n" + res.tail(40))
         if out.get("n") != len(flat):
             raise vf.Infra("receiver oracle consumed %s of %d lines" % (out.get("n"), len(flat)))
         for b in out.get("bad", []):
             start = b["l"] - 1
-            run = next(r for r in shards[i] if r[0] == flat[start])
+            run = next(r for r in shards2[i] if r[0] == flat[start])
             ctx.violation("receiver oracle (wire bytes + returned IDs only): %s" % b["why"], run)
             bad += 1
     # ---- conformance to the model
@@ -242,6 +243,9 @@ def run(ctx):
         "timestamps inside frames are not checked"]
     quick = ctx.quick
     par = 6 if quick else 12
+    dev = bool(os.environ.get("C28_DEV"))        # development knob on a shared host: small footprint
+    if dev:
+        par = 4
 
     # ------------------------------------------------------------------ replay: re-judge a persisted run
     if ctx.replay:
@@ -256,7 +260,7 @@ def run(ctx):
     # ------------------------------------------------------------------ MC (in the background)
     mcs = []
     if quick:
-        mcs.append(("2x2 buf1 faults1 fup", mc_cfg(2, 2, 1, 1, [12]), 3, False))
+        mcs.append(("2x2 buf1 faults1 fup", mc_cfg(2, 2, 1, 1, [12]), 4, False))
     else:
         mcs += [("2x2 buf1 faults2 fup", mc_cfg(2, 2, 1, 2, [12]), 3, True),
                 ("2x2 buf1 faults0 ENABLED", mc_cfg(2, 2, 1, 0, [12], invariants=["EmitNeverWaitsENABLED"]), 1, False),
@@ -269,8 +273,9 @@ def run(ctx):
                                                     props=["CloseTerminates", "ClosedIsFinal"], view=False), 2, False)]
     if os.environ.get("C28_SKIP_MC"):      # development knob (seed sweeps); never set by the registered commands
         mcs = []
-    pool = cf.ThreadPoolExecutor(max_workers=3 if quick else 8)
-    mcf = [pool.submit(vf.mc, ctx, "MC_Telemetry", cfg, workers=w, timeout=2400, heap="6g", coverage=cov, label="MC_Telemetry/" + lab)
+    pool = cf.ThreadPoolExecutor(max_workers=2 if dev else (3 if quick else 8))
+    mcf = [pool.submit(vf.mc, ctx, "MC_Telemetry", cfg, workers=min(w, 2) if dev else w, timeout=7200 if dev else 2400,
+                       heap="4g" if dev else "6g", coverage=cov, label="MC_Telemetry/" + lab)
            for lab, cfg, w, cov in mcs]
 
     # ------------------------------------------------------------------ X: the real client
